@@ -23,7 +23,9 @@ theorem filterGo_first (st : FState) (acc : Str) (j i : Nat) (l : Str) (e : Ch) 
     · split
       · split
         · rfl
-        · exact ih _ _ _ _
+        · split
+          · rfl
+          · exact ih _ _ _ _
       · split
         · rfl
         · exact ih _ _ _ _
@@ -40,7 +42,9 @@ theorem filterGo_index (st : FState) (acc : Str) (j i : Nat) (l : Str) (f : Str)
     · split at h
       · split at h
         · cases h
-        · have := ih _ _ _ _ h; simp only [List.length_cons]; omega
+        · split at h
+          · cases h
+          · have := ih _ _ _ _ h; simp only [List.length_cons]; omega
       · split at h
         · cases h
         · have := ih _ _ _ _ h; simp only [List.length_cons]; omega
